@@ -165,7 +165,8 @@ def _worker(job):
     src, docs = gen_module(rng, idx)
     modname = 'xdverif_c19_m%d' % idx
     path = os.path.join(tmp, modname + '.py')
-    with open(path, 'w') as f:
+    # every seventh module is saved with a byte-order mark, every eleventh with CRLF line ends (what editors on Windows write)
+    with open(path, 'w', encoding='utf-8-sig' if idx % 7 == 3 else 'utf-8', newline='\r\n' if idx % 11 == 5 else None) as f:
         f.write(src)
     try:
         text = dump_impl(path)
